@@ -402,6 +402,38 @@ func ruleNodeLayer(c *Ctx) {
 			c.r.ok("R22", key, m.pos(t.pos), fmt.Sprintf("threshold %d ≤ capacity %d and below its grow threshold", t.shrink, t.lower.Cap), "C11", "C10", "C01")
 		}
 	}
+	// the compressed-path length is a length of key bytes: its field must be at least as wide as
+	// the key-length fields of the leaves (a narrower counter wraps for long shared prefixes)
+	if hs, ok := m.Header.Underlying().(*types.Struct); ok {
+		var plen *types.Var
+		for i := 0; i < hs.NumFields(); i++ {
+			if strings.Contains(strings.ToLower(hs.Field(i).Name()), "prefixlen") {
+				plen = hs.Field(i)
+			}
+		}
+		maxLeaf, leafField := int64(0), ""
+		for _, lt := range m.LeafTypes {
+			if ls, ok := lt.Origin().Underlying().(*types.Struct); ok {
+				for i := 0; i < ls.NumFields(); i++ {
+					f := ls.Field(i)
+					if isIntType(f.Type()) && strings.Contains(strings.ToLower(f.Name()), "len") {
+						if sz := c.L.Sizes.Sizeof(f.Type()); sz > maxLeaf {
+							maxLeaf, leafField = sz, lt.Origin().Obj().Name()+"."+f.Name()
+						}
+					}
+				}
+			}
+		}
+		key := "compressed-path length field is as wide as the leaf key-length fields"
+		switch {
+		case plen == nil || maxLeaf == 0:
+			c.r.undecided("R22", key, "node.go", "header prefix-length field or leaf length fields not found", "C11", "C01")
+		case c.L.Sizes.Sizeof(plen.Type()) >= maxLeaf:
+			c.r.ok("R22", key, m.pos(plen.Pos()), fmt.Sprintf("%s is %s (%d bytes), %s is %d bytes", plen.Name(), plen.Type(), c.L.Sizes.Sizeof(plen.Type()), leafField, maxLeaf), "C11", "C01")
+		default:
+			c.r.bad("R22", key, m.pos(plen.Pos()), fmt.Sprintf("%s is %s (%d bytes) but keys are up to %d-byte lengths (%s): the recorded compressed-path length wraps when keys share a longer prefix, and the descent then consumes the wrong number of key bytes", plen.Name(), plen.Type(), c.L.Sizes.Sizeof(plen.Type()), maxLeaf, leafField), "C11", "C01")
+		}
+	}
 	c.r.floor("R22", 3, "capacity constants", "C11")
 
 	// ------------------------------------------------------------------ R37 SLOTALLOC
@@ -634,7 +666,7 @@ func ruleNodeLayer(c *Ctx) {
 		key := "package variable " + name
 		props := []string{"C16", "C12"}
 		if v == m.PoolVar && !strings.Contains(v.Type().String(), "sync.Pool") {
-			c.r.bad("R30", key, m.pos(v.Pos()), "the node pool shared by all trees is a "+types.TypeString(v.Type(), nil)+", not a sync.Pool: trees used from different goroutines race on it", props...)
+			c.r.bad("R30", key, m.pos(v.Pos()), "the node pool shared by all trees is a "+types.TypeString(v.Type(), nil)+", not a sync.Pool: it is neither synchronised by the runtime's contract (trees used from different goroutines) nor emptied by the garbage collector (released nodes stay reachable from a package-level variable, so memory follows the history, not the content)", append(props, "C17")...)
 			continue
 		}
 		if strings.Contains(v.Type().String(), "sync.Pool") {
